@@ -1761,3 +1761,121 @@ Proof.
       * rewrite get_oob in Hx by auto. discriminate.
   - intros x Hx. destruct (F x) as (a&_&_&_&b&_). rewrite a. rewrite b in Hx. auto.
 Qed.
+
+Lemma sinv_ext s s' :
+  hs s' = hs s -> tree s' = tree s -> pipe_of s' = pipe_of s -> batch s' = batch s -> clq_of s' = clq_of s ->
+  SInv s -> SInv s'.
+Proof.
+  intros Eh Et Ep Eb Eq [C K]. split.
+  - eapply score_frame with (s := s); auto; try congruence.
+    intros x. rewrite (get_hs_eq s s') by auto. apply same_acc_refl.
+  - intros x. rewrite (get_hs_eq s s') by auto. apply K.
+Qed.
+
+Lemma sinv_log s e : SInv s -> SInv (log s e).
+Proof. apply sinv_ext; reflexivity. Qed.
+Lemma sinv_snap s : SInv s -> SInv (snap s).
+Proof. apply sinv_ext; reflexivity. Qed.
+
+Lemma sinv_stop s h : SInv s -> SInv (sig_stop s h).
+Proof. intros [C K]. split; [apply score_stop; auto | apply sclosing_stop; auto]. Qed.
+
+Lemma sinv_api fx s o : SInv s -> SInv (api_snap fx s o).
+Proof.
+  intros I. unfold api_snap. apply sinv_snap. destruct o; simpl.
+  - apply sinv_log. apply sinv_init; auto.
+  - destruct (usable s h) eqn:U; [|apply sinv_log; auto].
+    pose proof (sinv_start fx s h sig false U I) as X.
+    destruct (sig_start fx s h sig false). apply sinv_log; auto.
+  - destruct (usable s h) eqn:U; [|apply sinv_log; auto].
+    pose proof (sinv_start fx s h sig true U I) as X.
+    destruct (sig_start fx s h sig true). apply sinv_log; auto.
+  - destruct (usable s h); apply sinv_log; auto using sinv_stop.
+  - destruct (usable s h) eqn:U; apply sinv_log; auto using sinv_close.
+  - destruct (Nat.eqb_spec sig 0); [apply sinv_log; auto|].
+    pose proof (sinv_deliver s sig n I) as X.
+    destruct (deliver s sig). apply sinv_log; auto.
+  - apply sinv_log; auto.
+Qed.
+
+Lemma sinv_closed s h : SInv s -> h_closing (get s h) = true ->
+  (h_dispatched (get s h) <? h_caught (get s h)) = false ->
+  SInv (log (upd_h s h h_set_closed) (ECloseCb h)).
+Proof.
+  intros [C K] Hc Hd. apply sinv_log.
+  assert (Hl : h < length (hs s)).
+  { destruct (Nat.lt_ge_cases h (length (hs s))); auto. rewrite get_oob in Hc by auto. discriminate. }
+  apply Nat.ltb_ge in Hd.
+  assert (G : get (upd_h s h h_set_closed) h = h_set_closed (get s h)) by (apply get_upd_same; auto).
+  assert (Go : forall x, x <> h -> get (upd_h s h h_set_closed) x = get s x) by (intros; apply get_upd_other; auto).
+  assert (F : forall x, same_key (get s x) (get (upd_h s h h_set_closed) x) /\
+                        h_closing (get (upd_h s h h_set_closed) x) = h_closing (get s x) /\
+                        h_caught (get (upd_h s h h_set_closed) x) = h_caught (get s x) /\
+                        h_dispatched (get (upd_h s h h_set_closed) x) = h_dispatched (get s x)).
+  { intros x. destruct (Nat.eq_dec x h) as [->|]; [rewrite G | rewrite Go by auto]; repeat split. }
+  assert (Pe : forall x, pending (upd_h s h h_set_closed) x = pending s x).
+  { intros x. apply pending_frame; try reflexivity. apply F. }
+  destruct C as [T So C' Q P B N Z]. split.
+  - split; change (tree (upd_h s h h_set_closed)) with (tree s);
+      change (pipe_of (upd_h s h h_set_closed)) with (pipe_of s);
+      change (batch (upd_h s h h_set_closed)) with (batch s);
+      change (clq_of (upd_h s h h_set_closed)) with (clq_of s); rewrite ?len_upd_h.
+    + intros x. destruct (F x) as ((a&_)&_). rewrite a. apply T.
+    + eapply sorted_ext; [|exact So]. intros; apply F.
+    + intros x Hx. destruct (F x) as (_&a&_). rewrite a.
+      destruct (Nat.eq_dec x h) as [->|Hn]; auto. rewrite Go in Hx by auto. auto.
+    + intros l x Hx. destruct (F x) as (_&a&_). rewrite a. eauto.
+    + intros l m Hm. destruct (F (fst m)) as ((_&_&a)&_). rewrite a. auto.
+    + auto.
+    + intros x Hx. rewrite Pe. destruct (F x) as (_&_&a&b). rewrite a, b. auto.
+    + intros x Hx. rewrite Pe. destruct (Nat.eq_dec x h) as [->|Hn].
+      * specialize (N h Hl). lia.
+      * rewrite Go in Hx by auto. auto.
+  - intros x Hx. destruct (F x) as ((a&_)&b&_). rewrite a. rewrite b in Hx. auto.
+Qed.
+
+Lemma sinv_requeue s l h : SInv s -> h_closing (get s h) = true -> SInv (set_clq s l (h :: clq_of s l)).
+Proof.
+  intros [C K] Hc. split; [|exact K].
+  destruct C as [T So C' Q P B N Z]. split; auto.
+  intros l' x Hx. gs. ssimpl. unfold fupd in Hx. destruct (l' =? l); eauto.
+  destruct Hx as [<-|Hx]; eauto.
+Qed.
+
+Lemma sinv_clq_nil s l : SInv s -> SInv (set_clq s l []).
+Proof.
+  intros [C K]. split; [|exact K].
+  destruct C as [T So C' Q P B N Z]. split; auto.
+  intros l' x Hx. gs. ssimpl. unfold fupd in Hx. destruct (l' =? l); eauto. contradiction.
+Qed.
+
+Lemma sinv_cb_enter s h sig : SInv s -> SInv (cb_enter s h sig).
+Proof. apply sinv_ext; reflexivity. Qed.
+
+Lemma sinv_init0 c : SInv (init c).
+Proof.
+  split.
+  - split; simpl; auto; try contradiction.
+    + intros h. unfold get. simpl. destruct h; simpl; intuition.
+    + constructor.
+    + intros h. unfold get. simpl. destruct h; discriminate.
+    + intros h. lia.
+    + intros h. unfold get. simpl. destruct h; discriminate.
+  - intros h. unfold get. simpl. destruct h; reflexivity.
+Qed.
+
+Theorem sinv_run fx beh fuel c ops : SInv (run fx beh fuel (init c) ops).
+Proof.
+  apply (rule_run fx beh (fun _ => SInv)) with (Rq := fun s h => h_closing (get s h) = true);
+    auto using sinv_api, sinv_log, sinv_take, sinv_clq_nil, sinv_requeue, sinv_closed, sinv_init0.
+  - intros; apply sinv_cb_enter; auto.
+  - intros; eapply sinv_finish; eauto. apply sinv_log; auto.
+  - intros; eapply sinv_finish; eauto.
+  - intros s l h [C K] Hh. eapply (s_clq _ C); eauto.
+  - intros s h' h Hc. gs. destruct (Nat.eq_dec h' h) as [->|Hn].
+    + destruct (Nat.lt_ge_cases h (length (hs s))).
+      * rewrite get_upd_same by auto. auto.
+      * rewrite upd_h_oob by auto. auto.
+    + rewrite get_upd_other by auto. auto.
+  - intros. apply sinv_snap, sinv_log; auto.
+Qed.
